@@ -104,6 +104,45 @@ func oddObjects() []oddObj {
 		{"struct{}", struct{}{}},
 		{"error", errors.New("boom")},
 		{"foreign object as host object", &foreign{1}},
+		{"map containing itself", func() interface{} { m := map[string]interface{}{"F": 1}; m["G"] = m; return m }()},
+		{"struct with a map field containing itself", func() interface{} {
+			m := map[string]interface{}{"k": 1}
+			m["self"] = map[string]interface{}{"again": m}
+			return struct{ F map[string]interface{} }{m}
+		}()},
+		{"map nested 150000 levels deep", func() interface{} {
+			top := map[string]interface{}{}
+			cur := top
+			for i := 0; i < 150000; i++ {
+				nx := map[string]interface{}{}
+				cur["k"] = nx
+				cur = nx
+			}
+			return map[string]interface{}{"F": top, "G": 1}
+		}()},
+		{"self-referencing struct pointer", func() interface{} {
+			type node struct {
+				F    int
+				Next *node
+				Kids []*node
+			}
+			n := &node{F: 1}
+			n.Next, n.Kids = n, []*node{n}
+			return n
+		}()},
+		{"struct with embedded struct and unexported fields", func() interface{} {
+			type inner struct {
+				F int
+				g string
+			}
+			type outer struct {
+				inner
+				G     []interface{}
+				h     map[string]int
+				Inner inner
+			}
+			return outer{inner: inner{F: 1, g: "x"}, G: []interface{}{inner{F: 2}, nil}, h: map[string]int{"a": 1}}
+		}()},
 	}
 }
 
